@@ -20,7 +20,7 @@ func init() {
 			"R15.3 no printer path replays the same token field twice, and the replay method writes each element once; " +
 			"R15.4 every buffer write of the replay method is reachable only with PrettyPrint true, and LeadingComments is read in ast/compiler/debug only as the argument of the replay method; " +
 			"R15.5 a replay that wrote anything ends by forcing a pending line break, and the pending buffer is cleared only by the flush, by WriteNewline (which re-establishes one) and by the replay method itself; " +
-			"R15.6 the trivia skipper resets the list on entry, appends one empty element per line break in whitespace and one element per `//` comment consisting of exactly the bytes it advanced over — on every path behind a scanned comment (a comment ended by the end of the input included) the append is passed before the skipper goes round again or returns; every token constructor copies the list; " +
+			"R15.6 the trivia skipper resets the list on entry, appends one empty element per line break in whitespace and one element per `//` comment consisting of exactly the bytes it advanced over, never the empty string (the blank-line marker; a comment without text keeps one blank) — on every path behind a scanned comment (a comment ended by the end of the input included) the append is passed before the skipper goes round again or returns; every token constructor copies the list; " +
 			"R15.7 a reading of the output buffer's emptiness (which suppresses the separator in front of a replayed entry) is never branched on after something was written since it was taken. " +
 			"Textual equality/placement in the output is not compared.",
 		notDecided: []string{"textual equality and relative placement of comments in the output", "blank-line preservation as a count", "indentation of replayed comments"},
@@ -731,6 +731,89 @@ func ruleCommentCollection(c *Ctx) {
 				c.check(k.Value != nil && k.Value.ExactString() == `""` && isNL, key, st.Pos(), "an empty element, appended only when the current byte is '\\n'", "the blank-line marker is not appended exactly on a line break")
 				return
 			}
+			// comment element: never the empty string — the blank-line marker is the empty string and the replay tells the
+			// two apart by their length, so a comment with no text (`//`, or `//` and blanks that are trimmed) is replayed
+			// as a blank line and the comment is gone
+			{
+				desc := "computed"
+				if call, ok := el[0].(*ssa.Call); ok && call.Call.StaticCallee() != nil {
+					desc = call.Call.StaticCallee().Name() + "("
+					for i, a := range call.Call.Args {
+						if i > 0 {
+							desc += ", "
+						}
+						if k, ok := a.(*ssa.Const); ok && k.Value != nil {
+							desc += k.Value.ExactString()
+						} else {
+							desc += "…"
+						}
+					}
+					desc += ")"
+				}
+				nonEmpty := false
+				if t, ok := emptyReplaced(el[0]); ok {
+					nonEmpty = true
+					if call, ok := t.(*ssa.Call); ok && call.Call.StaticCallee() != nil {
+						desc = call.Call.StaticCallee().Name() + "(…), a blank when empty"
+					}
+				}
+				if bo, ok := el[0].(*ssa.BinOp); ok && bo.Op == token.ADD {
+					for _, side := range []ssa.Value{bo.X, bo.Y} {
+						if k, ok := side.(*ssa.Const); ok && k.Value != nil && k.Value.Kind() == constant.String && constant.StringVal(k.Value) != "" {
+							nonEmpty = true
+						}
+					}
+				}
+				// a dominating test of the element against "" / of its length against 0
+				for _, ob := range skf.Blocks {
+					iff := blockIf(ob)
+					if iff == nil {
+						continue
+					}
+					cmp, ok := iff.Cond.(*ssa.BinOp)
+					if !ok {
+						continue
+					}
+					isElem := func(v ssa.Value) bool {
+						if v == el[0] {
+							return true
+						}
+						if ln, ok := isBuiltinCall(v, "len"); ok && ln.Call.Args[0] == el[0] {
+							return true
+						}
+						return false
+					}
+					isZero := func(v ssa.Value) bool {
+						k, ok := v.(*ssa.Const)
+						if !ok || k.Value == nil {
+							return false
+						}
+						if k.Value.Kind() == constant.String {
+							return constant.StringVal(k.Value) == ""
+						}
+						n, ok := constant.Int64Val(constant.ToInt(k.Value))
+						return ok && n == 0
+					}
+					if !(isElem(cmp.X) && isZero(cmp.Y)) {
+						continue
+					}
+					switch cmp.Op {
+					case token.NEQ, token.GTR:
+						if condEdgeDominates(ob, true, b) {
+							nonEmpty = true
+						}
+					case token.EQL, token.LEQ:
+						if condEdgeDominates(ob, false, b) {
+							nonEmpty = true
+						}
+					}
+				}
+				k2 := fmt.Sprintf("skipper: comment element %s is never the blank-line marker", desc)
+				if skf != sk {
+					k2 = fmt.Sprintf("skipper helper %s: comment element %s is never the blank-line marker", skf.Name(), desc)
+				}
+				c.check(nonEmpty, k2, st.Pos(), "the element cannot be the empty string", "a comment without text yields the empty string, which is the blank-line marker: `//` on its own line is replayed as a blank line and a trailing `//` disappears (the comment is lost)")
+			}
 			// comment element: derived from a builder that received exactly the bytes advanced over
 			okc := commentElementOK(lf, skf, el[0])
 			c.check(okc, key, st.Pos(), "the comment's bytes: each written byte is the current byte and is advanced over right after", "the appended comment text is not exactly the bytes the skipper advanced over between `//` and the line end")
@@ -1018,7 +1101,73 @@ func commentSubstringFromOpener(lf *lexFacts, sk *ssa.Function, v ssa.Value) boo
 	return true
 }
 
+// emptyReplaced: v = phi[T, K] where K is a non-empty string constant taken exactly on the edge on which T was found
+// empty (`if text == "" { text = " " }`). Returns T.
+func emptyReplaced(v ssa.Value) (ssa.Value, bool) {
+	phi, ok := v.(*ssa.Phi)
+	if !ok || len(phi.Edges) != 2 {
+		return nil, false
+	}
+	for i := 0; i < 2; i++ {
+		k, isK := phi.Edges[i].(*ssa.Const)
+		if !isK || k.Value == nil || k.Value.Kind() != constant.String || constant.StringVal(k.Value) == "" {
+			continue
+		}
+		t := phi.Edges[1-i]
+		bK := phi.Block().Preds[i]
+		bT := phi.Block().Preds[1-i]
+		// bK is entered only from the test block, on the outcome "t is empty"
+		if len(bK.Preds) != 1 {
+			continue
+		}
+		ob := bK.Preds[0]
+		iff := blockIf(ob)
+		if iff == nil {
+			continue
+		}
+		cmp, ok := iff.Cond.(*ssa.BinOp)
+		if !ok {
+			continue
+		}
+		lhsIsT := cmp.X == t
+		if ln, ok := isBuiltinCall(cmp.X, "len"); ok && ln.Call.Args[0] == t {
+			lhsIsT = true
+		}
+		zero := false
+		if kk, ok := cmp.Y.(*ssa.Const); ok && kk.Value != nil {
+			if kk.Value.Kind() == constant.String {
+				zero = constant.StringVal(kk.Value) == ""
+			} else if n, ok := constant.Int64Val(constant.ToInt(kk.Value)); ok {
+				zero = n == 0
+			}
+		}
+		if !lhsIsT || !zero {
+			continue
+		}
+		emptyOnTrue := cmp.Op == token.EQL || cmp.Op == token.LEQ
+		emptyOnFalse := cmp.Op == token.NEQ || cmp.Op == token.GTR
+		idx := -1
+		for si, sc := range ob.Succs {
+			if sc == bK {
+				idx = si
+			}
+		}
+		if (idx == 0 && emptyOnTrue) || (idx == 1 && emptyOnFalse) {
+			// the other edge comes from the test block itself (no else) or from a block reached on the other outcome
+			if bT == ob || (len(bT.Preds) == 1 && bT.Preds[0] == ob) {
+				return t, true
+			}
+		}
+	}
+	return nil, false
+}
+
 func commentSubstringOK(lf *lexFacts, sk *ssa.Function, v ssa.Value) bool {
+	// `if text == "" { text = " " }`: the text form is judged, the replacement is a constant the rule for empty
+	// comments accounts for
+	if t, ok := emptyReplaced(v); ok {
+		return commentElementOK(lf, sk, t)
+	}
 	sl, ok := v.(*ssa.Slice)
 	if !ok || sl.Low == nil || sl.High == nil || sl.Max != nil {
 		return false
